@@ -70,6 +70,58 @@ def w2_jobs(tier, flavors, pairs, acfgs, faults, focus=G_ALL, **over):
     return jobs
 
 
+ELEM_TYPE = {"u8": "unsigned char", "u16": "unsigned short", "u32": "unsigned int", "u64": "unsigned long long"}
+SIZE_TYPE = {8: "std::uint8_t", 16: "std::uint16_t", 32: "std::uint32_t", 64: "std::uint64_t"}
+
+
+def w3bin(elem, n, st_bits, maxs, ndebug=True, asan=True):
+    name = "w3-%s-N%d-st%d-max%d%s%s" % (elem, n, st_bits, maxs, "-asan" if asan else "", "" if ndebug else "-assert")
+    return Bin(name, "w3_main.cpp",
+               defines=["SV_ELEM=" + ELEM_TYPE[elem], "SV_N=%d" % n,
+                        "SV_SIZET=" + SIZE_TYPE[st_bits], "SV_MAX=%d" % maxs, "SVMC_REDZONE=512"],
+               asan=asan, ndebug=ndebug)
+
+
+def w3_jobs(tier):
+    """(binary, states all/boundary, counts all/boundary, K, L, shards)"""
+    jobs = []
+
+    def add(b, states_boundary, counts_boundary, K, L, shards, capb=1 << 20, deadline=None):
+        for sh in range(shards):
+            args = ["--S", 1 if states_boundary else 0, "--fault-kinds", 1 if counts_boundary else 0,
+                    "--K", K, "--L", L, "--capb", capb, "--witnesses", sh + 1, "--unq-depth", shards,
+                    "--deadline", deadline or (400 if tier == "quick" else 2400)]
+            jobs.append(Job("%s-sh%d" % (b.name, sh), b, args))
+
+    if tier == "quick":
+        # 8-bit size_type, true limit 127: every (size, capacity) state x boundary counts / lengths
+        add(w3bin("u8", 4, 8, 0, asan=False), False, True, 255, 300, 12)
+        add(w3bin("u8", 4, 8, 0), True, True, 255, 300, 1)      # the same under ASan, boundary states
+        add(w3bin("u32", 0, 8, 0), True, True, 255, 300, 1)     # element size 4: max_size 63
+        add(w3bin("u64", 2, 8, 0), True, True, 255, 300, 1)     # element size 8: max_size 31
+        # wider size types with a small allocator max_size(): complete space, every count
+        add(w3bin("u8", 2, 16, 17, asan=False), False, False, 40, 40, 1)
+        add(w3bin("u16", 3, 32, 17, asan=False), False, False, 40, 40, 1)
+        add(w3bin("u8", 0, 64, 37, asan=False), False, False, 60, 60, 4)
+        add(w3bin("u8", 4, 8, 0, ndebug=False), True, True, 255, 300, 1)
+        # 16-bit true limit (32767): boundary states and counts
+        add(w3bin("u8", 4, 16, 0, asan=False), True, True, 66000, 66000, 4)
+    else:
+        add(w3bin("u8", 4, 8, 0, asan=False), False, False, 255, 300, 32)
+        add(w3bin("u8", 4, 8, 0), False, True, 255, 300, 16)
+        add(w3bin("u8", 0, 8, 0, asan=False), False, True, 255, 300, 8)
+        add(w3bin("u16", 3, 8, 0, asan=False), False, True, 255, 300, 8)
+        add(w3bin("u32", 0, 8, 0), False, True, 255, 300, 4)
+        add(w3bin("u64", 2, 8, 0), False, False, 255, 300, 4)
+        for st in (16, 32, 64):
+            for (mx, n, el) in ((17, 2, "u8"), (37, 0, "u16"), (37, 5, "u32")):
+                add(w3bin(el, n, st, mx, asan=False), False, False, 60, 60, 2)
+        add(w3bin("u8", 4, 8, 0, ndebug=False), False, True, 255, 300, 8)
+        add(w3bin("u8", 4, 16, 0), True, True, 66000, 66000, 8)
+        add(w3bin("u16", 0, 16, 0), True, True, 66000, 66000, 8)
+    return jobs
+
+
 def bin_spec(b):
     return {"name": b.name, "source": b.source, "defines": b.defines, "std": b.std, "cxx": b.cxx,
             "asan": b.asan, "ndebug": b.ndebug, "opt": b.opt, "extra": b.extra}
@@ -305,6 +357,218 @@ def plan_C09(prop, tier):
     return run_svmc(prop, tier, jobs)
 
 
+def plan_C12(prop, tier):
+    rep = run_svmc(prop, tier, w3_jobs(tier), extra_assumptions=[
+        "8-bit size_type: the complete (size, capacity) space up to max_size()=127; in the quick tier counts and range lengths are the boundary set {0,1,2,3,max-size-1..max-size+1,max-1..max+1,max/2,127..129,254..257,300}, the thorough tier runs every count 0..255 and every length 0..300",
+        "16/32/64-bit size_type: complete space under an artificially small allocator max_size() (17, 37), plus the true 16-bit limit at boundary states",
+        "on this platform uint_fast16_t/uint_fast32_t are 64-bit, so only the 8-bit size_type exercises a narrow internal size type"])
+    if rep.get("coverage"):
+        rep["coverage"]["bounds"] = {"W3": "see coverage.configurations / assumptions"}
+    return rep
+
+
+LONGRUN = Bin("longrun", "longrun_main.cpp", std="17", opt="-O2")
+
+
+def plan_C14(prop, tier):
+    fl = ("NM", "TR") if tier == "quick" else ("NM", "TM", "MO", "TR", "INT")
+    cfgs = grid(fl, W1_NS[tier], (1,)) + grid(("NM",), (0, 2), (0,))
+    focus = G_APPEND1 | G_INSERT1 | G_INSERTN | G_INSRANGE | G_RESIZE | G_CAP | G_ASSIGN | G_APPENDR
+    jobs = w1_jobs(tier, cfgs, focus, 0) + w3_jobs(tier)
+    fails = svlib.build_all([LONGRUN])
+    if fails:
+        return {"harness_errors": ["build failed for longrun:\n" + fails[0][1]]}
+    rep = run_svmc(prop, tier, jobs)
+    if BUILD_ONLY or rep.get("harness_errors"):
+        return rep
+    n_long, n_short = (1 << 22, 1 << 12) if tier == "quick" else (1 << 25, 1 << 16)
+    r = subprocess.run([LONGRUN.path(), str(n_long), str(n_short)], stdout=subprocess.PIPE, stderr=subprocess.STDOUT, text=True)
+    if r.returncode != 0:
+        return {"harness_errors": ["longrun failed: " + r.stdout[-2000:]]}
+    lr = json.loads(r.stdout.strip().splitlines()[-1])
+    rep["coverage"]["long_runs"] = lr
+    rep["coverage"]["transitions"] += lr["steps"]
+    rep["coverage"]["traces_validated_against_impl"] += lr["steps"]
+    rep["summary"] += "; long runs: %d start shapes x 6 operations, %d steps, %d reallocations checked" % (
+        lr["cases"], lr["steps"], lr["reallocations"])
+    if lr["violations"]:
+        rep["violations"].append({
+            "oracle": "longrun.growth", "op": "repeated append", "detail": lr["first"], "config": "longrun", "count": lr["violations"],
+            "desc": lr["first"],
+            "replay": {"kind": "longrun", "binary": bin_spec(LONGRUN), "args": [n_long, n_short]}})
+    return rep
+
+
+def run_table_bins(bins_args):
+    """Run (Bin, args) pairs whose last stdout line is a JSON object. Returns list of (bin, json, stdout) or raises."""
+    fails = svlib.build_all([b for b, _ in bins_args])
+    if fails:
+        return None, ["build failed for %s:\n%s" % (b.name, log) for b, log in fails]
+    if BUILD_ONLY:
+        return [], []
+    import concurrent.futures
+    out, errs = [], []
+
+    def one(ba):
+        b, args = ba
+        r = subprocess.run([b.path()] + [str(a) for a in args], stdout=subprocess.PIPE, stderr=subprocess.STDOUT, text=True)
+        return b, args, r
+
+    with concurrent.futures.ThreadPoolExecutor(max_workers=svlib.NCPU) as ex:
+        for b, args, r in ex.map(one, bins_args):
+            if r.returncode != 0:
+                errs.append("%s exited %d: %s" % (b.name, r.returncode, r.stdout[-2000:]))
+                continue
+            try:
+                out.append((b, args, json.loads(r.stdout.strip().splitlines()[-1]), r.stdout))
+            except Exception as e:  # noqa
+                errs.append("%s: unreadable output (%s): %s" % (b.name, e, r.stdout[-1000:]))
+    return out, errs
+
+
+def plan_C16(prop, tier):
+    lmax = 5 if tier == "quick" else 6
+    stds = [("g++", "11"), ("g++", "17"), ("g++", "20"), ("clang++", "20")] if tier == "quick" else \
+           [("g++", s) for s in ("11", "14", "17", "20", "2b")] + [("clang++", s) for s in ("11", "14", "17", "20", "2b")]
+    bins = [(Bin("cmp-%s-std%s" % (c.replace("+", "p"), s), "cmp_main.cpp", std=s, cxx=c), [lmax]) for c, s in stds]
+    # non-member accessors / swap on every state of the run-time graphs
+    jobs = w1_jobs(tier, grid(("NM", "TR"), (0, 2), (1,)), G_APPEND1 | G_ERASE | G_CAP | G_INSERT1, 0)
+    jobs += w2_jobs(tier, ("NM",), ((0, 0), (2, 2)), (-1, 0, 7), 0)
+    rep = run_svmc(prop, tier, jobs, level="exploration")
+    if rep.get("harness_errors"):
+        return rep
+    res, errs = run_table_bins(bins)
+    if errs:
+        return {"harness_errors": errs}
+    if BUILD_ONLY:
+        return {}
+    ev = sum(r[2]["evaluations"] for r in res)
+    pairs = sum(r[2]["pairs"] for r in res)
+    viol = list(rep["violations"])
+    for b, args, j, out in res:
+        if j["mismatches"]:
+            viol.append({"oracle": "table.mismatch", "op": "comparison / erase / swap tables",
+                         "detail": j["first"], "config": b.name, "count": j["mismatches"], "desc": j["first"],
+                         "replay": {"kind": "table", "binary": bin_spec(b), "args": args}})
+    svmc_cov = rep["coverage"]
+    cov = {
+        "evaluations": ev + svmc_cov["transitions"],
+        "distinct_nontrivial": pairs - 36 * len(res),
+        "rule": "all pairs of contents over the alphabet {0,1,2} (2 = NaN for double) up to length %d, x 9 pairs of inline capacities from {0,1,3}, x element types {int, <-only, double+NaN, <=>-only (C++20)}, every operator, per compiler/standard; non-trivial = at least one side non-empty. Plus erase(v,x) for every content x every x, erase_if for every content x all 8 predicates, non-member swap/accessors; and the non-member accessors on every state of a W1/W2 state graph." % lmax,
+        "samples": ["int N=0 M=3: [0,1] < [0,1,2] -> true (std::vector: true)", "double+NaN N=1 M=1: [NaN] == [NaN] -> false",
+                    "erase_if(v, mask 5) N=3 on [0,1,2,0] leaves [1] and returns 3"] + svmc_cov["samples"][:3],
+        "exhaustive": True,
+        "builds": [{"binary": b.name, **{k: j[k] for k in ("std", "three_way", "contents", "pairs", "evaluations", "mismatches")}} for b, a, j, o in res],
+        "state_graph": {k: svmc_cov[k] for k in ("states", "transitions", "configurations")},
+    }
+    return {"level": "exploration", "coverage": cov, "violations": viol, "others": rep.get("others", {}),
+            "assumptions": ["length bound %d over a 3-letter alphabet (data independence: comparison only uses ==, < / <=> of elements)" % lmax,
+                            "libstdc++ 12; g++ 12 and clang++ 14"],
+            "summary": "%d builds, %d content pairs, %d operator evaluations; %s" % (len(res), pairs, ev, rep["summary"])}
+
+
+def run_row_bins(bins):
+    """Build + run binaries that print `ROW ...` lines. Returns ({bin name: [rows]}, errors)."""
+    fails = svlib.build_all(bins)
+    if fails:
+        return None, ["build failed for %s:\n%s" % (b.name, log) for b, log in fails]
+    if BUILD_ONLY:
+        return {}, []
+    import concurrent.futures
+    rows, errs = {}, []
+
+    def one(b):
+        return b, subprocess.run([b.path()], stdout=subprocess.PIPE, stderr=subprocess.STDOUT, text=True)
+
+    with concurrent.futures.ThreadPoolExecutor(max_workers=svlib.NCPU) as ex:
+        for b, r in ex.map(one, bins):
+            if r.returncode != 0:
+                errs.append("%s exited %d: %s" % (b.name, r.returncode, r.stdout[-1500:]))
+                continue
+            rows[b.name] = [ln.split()[1:] for ln in r.stdout.splitlines() if ln.startswith("ROW ")]
+    return rows, errs
+
+
+def plan_C19(prop, tier):
+    import grids
+    srcs = grids.c19_sources(tier)
+    bins = [Bin("c19-%03d" % i, src, std="17", opt="-O0") for i, (src, pts) in enumerate(srcs)]
+    rows, errs = run_row_bins(bins)
+    if errs:
+        return {"harness_errors": errs}
+    if BUILD_ONLY:
+        return {}
+    viol, n, nontrivial, samples = {}, 0, 0, []
+    keys = ["S", "A", "state", "bits", "k", "sizeof_k", "sizeof_k1", "sizeof_0", "sizeof_1", "alignof_sv", "off", "icap", "cap", "inlined", "sizeof_T", "alignof_T"]
+    expected_points = sum(len(pts) for _, pts in srcs)
+    for i, b in enumerate(bins):
+        for r in rows.get(b.name, []):
+            row = dict(zip(keys, [int(x) for x in r]))
+            n += 1
+            if row["sizeof_T"] != row["S"] or row["alignof_T"] != row["A"]:
+                return {"harness_errors": ["grid element type has unexpected layout: %s" % row]}
+            if row["k"] > 1:
+                nontrivial += 1
+            if len(samples) < 6 and n % 97 == 1:
+                samples.append(row)
+            for case, msg in grids.c19_oracle(row):
+                v = viol.setdefault(case, {"oracle": case, "op": "layout", "case": case, "detail": msg, "config": "grid point " + msg.split(":")[0],
+                                           "count": 0, "desc": msg,
+                                           "replay": {"kind": "grid", "binary": bin_spec(b), "row": row}})
+                v["count"] += 1
+    if n != expected_points:
+        return {"harness_errors": ["C19 grid: %d rows printed, %d grid points expected" % (n, expected_points)]}
+    cov = {"evaluations": n, "distinct_nontrivial": nontrivial,
+           "rule": "complete grid: element sizeof %s x alignof {1,2,4,8,16,32,64} (size a multiple of alignment) x allocator state {0,1,2,4,8,16,24} bytes x size_type {8,16,32,64} bit; per point sizeof of the container at the default capacity k, at k+1, at 0 and 1, alignof, inline buffer offset, inline_capacity(); non-trivial = default capacity > 1" % ("1..72" if tier == "thorough" else "{1..16,20,24,32,40,48,56,64,72}"),
+           "samples": samples, "exhaustive": True, "translation_units": len(bins)}
+    return {"level": "exploration", "coverage": cov, "violations": list(viol.values()),
+            "assumptions": ["x86-64 System V ABI, g++ 12; the property is about object layout, there are no executions to explore: the finite configuration grid named by the property's quantifier is enumerated completely"],
+            "summary": "%d grid points in %d translation units" % (n, len(bins))}
+
+
+def plan_C18(prop, tier):
+    import grids
+    stds = [("g++", "17"), ("g++", "11"), ("g++", "20")] if tier == "quick" else \
+           [("g++", s) for s in ("11", "14", "17", "20", "2b")] + [("clang++", s) for s in ("11", "17", "20")]
+    srcs, pts = grids.c18_sources()
+    bins = []
+    for c, sd in stds:
+        for i, src in enumerate(srcs):
+            bins.append(Bin("c18-%03d-%s-std%s" % (i, c.replace("+", "p"), sd), src, std=sd, cxx=c, opt="-O0", extra=["-fsyntax-only"] if False else []))
+    # (b) dynamic part: exceptions reach the caller / noexcept operations have no throwing path
+    rep = run_svmc(prop, tier, plan_C18b_jobs(tier))
+    if rep.get("harness_errors"):
+        return rep
+    rows, errs = run_row_bins(bins)
+    if errs:
+        return {"harness_errors": errs}
+    if BUILD_ONLY:
+        return {}
+    viol = {v["oracle"] + "|" + v["op"]: v for v in rep["violations"]}
+    n = 0
+    cpp_of = {"11": 201103, "14": 201402, "17": 201703, "20": 202002, "2b": 202100}
+    for b in bins:
+        for r in rows.get(b.name, []):
+            n += 1
+            tag, q = r[0], [int(x) for x in r[1:]]
+            for what, msg in grids.c18_oracle(tag, q, cpp_of[b.std]):
+                key = "noexcept-grid|" + what
+                v = viol.setdefault(key, {"oracle": "noexcept-grid", "op": what, "detail": msg + " [" + b.cxx + " -std=c++" + b.std + "]",
+                                          "config": tag, "count": 0, "desc": msg,
+                                          "replay": {"kind": "grid", "binary": bin_spec(b), "row": tag}})
+                v["count"] += 1
+    if n != len(pts) * len(stds):
+        return {"harness_errors": ["C18 grid: %d rows printed, %d expected" % (n, len(pts) * len(stds))]}
+    cov = dict(rep["coverage"])
+    cov["static_grid"] = {"points": len(pts), "builds": len(stds), "queries_per_point": 15,
+                          "rule": "{nothrow,throwing} move ctor x move assign x swap x N in {0,3} x source capacity {<,==,>} x allocator {std, POCMA x POCS x always-equal, throwing default ctor}; oracle = README.md conditions"}
+    cov["evaluations"] = n * 15
+    rep["coverage"] = cov
+    rep["violations"] = list(viol.values())
+    rep["summary"] += "; static noexcept/trait grid: %d points x %d builds" % (len(pts), len(stds))
+    return rep
+
+
 def plan_C18b_jobs(tier):
     fl = ("NM", "TM", "MO", "TR") if tier == "quick" else ("NM", "TM", "MO", "MOT", "CO", "TR", "INT")
     cfgs = grid(fl, W1_NS[tier], (1,)) + grid(("NM",), (0, 2), (0,))
@@ -314,12 +578,46 @@ def plan_C18b_jobs(tier):
 
 
 PLANS = {
-    "C07": plan_C07, "C09": plan_C09,
+    "C07": plan_C07, "C09": plan_C09, "C12": plan_C12, "C14": plan_C14, "C16": plan_C16, "C18": plan_C18, "C19": plan_C19,
     "C01": plan_C01, "C02": plan_C02, "C03": plan_C03, "C04": plan_C04, "C05": plan_C05,
     "C06": plan_C06, "C10": plan_C10, "C11": plan_C11, "C15": plan_C15,
 }
 
 
 def replay_other(payload):
+    if payload.get("kind") == "longrun":
+        b = Bin(**payload["binary"])
+        ok, log = b.build()
+        if not ok:
+            print(log)
+            return 2
+        r = subprocess.run([b.path()] + [str(a) for a in payload.get("args", [])], stdout=subprocess.PIPE, text=True)
+        print(r.stdout)
+        return 1 if '"violations":0' not in r.stdout else 0
+    if payload.get("kind") == "grid":
+        b = Bin(**payload["binary"])
+        ok, log = b.build()
+        if not ok:
+            print(log)
+            return 2
+        r = subprocess.run([b.path()], stdout=subprocess.PIPE, text=True)
+        want = payload.get("row")
+        for ln in r.stdout.splitlines():
+            if isinstance(want, str) and ln.startswith("ROW " + want + " "):
+                print(ln)
+            elif isinstance(want, dict) and ln.startswith("ROW %d %d %d %d " % (want["S"], want["A"], want["state"], want["bits"])):
+                print("ROW S A state bits k sizeof_k sizeof_k+1 sizeof_0 sizeof_1 alignof off inline_capacity capacity inlined sizeof_T alignof_T")
+                print(ln)
+        print("expected: see 'detail' in the replay file")
+        return 1
+    if payload.get("kind") == "table":
+        b = Bin(**payload["binary"])
+        ok, log = b.build()
+        if not ok:
+            print(log)
+            return 2
+        r = subprocess.run([b.path()] + [str(a) for a in payload.get("args", [])], stdout=subprocess.PIPE, text=True)
+        print(r.stdout)
+        return 1 if "MISMATCH" in r.stdout else 0
     print("unknown replay kind: %s" % payload.get("kind"))
     return 2
